@@ -290,7 +290,7 @@ class World:
         if kind == "use_destroyed_measure":
             return self._measure(en, t, False, True)
         if kind == "measure_with_destroyed":
-            return self.handle_for(t[0]).measure(*[self.subs[j] for j in t], separate_measurement=True, destructive=False)
+            return self.handle_for(t[0]).measure(*[self.subs[j] for j in t], separate_measurement=True, destructive=True)
         if kind == "use_destroyed_kraus":
             return self._kraus(en, [jnp.eye(d, dtype=complex)], t)
         if kind == "use_destroyed_povm":
